@@ -1,7 +1,7 @@
 (* Base/Sym.v — abstract abelian symmetry with parity, and its laws. *)
 From SV Require Import Base.Prelude.
 From Coq Require Import Permutation.
-Open Scope Z_scope.
+Local Open Scope Z_scope.
 
 Record Symmetry := {
   C : Type;
